@@ -43,7 +43,10 @@ func init() {
 		return c
 	}
 	I["time.Now"] = func(t *Thread, fn *ssa.Function, a []Value) Value { return mkTime(now(t)) }
-	I["time.Since"] = func(t *Thread, fn *ssa.Function, a []Value) Value { return BVBin(OpSub, now(t), ns(a[0])) }
+	I["time.Unix"] = func(t *Thread, fn *ssa.Function, a []Value) Value {
+		return mkTime(BVBin(OpAdd, BVBin(OpMul, a[0].(*Term), MkBV(1000000000, 64)), a[1].(*Term)))
+	}
+	I["time.Since"] =func(t *Thread, fn *ssa.Function, a []Value) Value { return BVBin(OpSub, now(t), ns(a[0])) }
 	I["time.Until"] = func(t *Thread, fn *ssa.Function, a []Value) Value { return BVBin(OpSub, ns(a[0]), now(t)) }
 	I["(time.Time).After"] = func(t *Thread, fn *ssa.Function, a []Value) Value { return BVCmp(OpSLT, ns(a[1]), ns(a[0])) }
 	I["(time.Time).Before"] = func(t *Thread, fn *ssa.Function, a []Value) Value { return BVCmp(OpSLT, ns(a[0]), ns(a[1])) }
